@@ -4,6 +4,10 @@ import (
 	"crypto/sha256"
 	"encoding/base64"
 
+	"github.com/ory/fosite"
+	"github.com/ory/fosite/compose"
+	"github.com/ory/fosite/handler/openid"
+	"github.com/ory/fosite/zz_verif_h/world"
 	"github.com/ory/fosite/zz_verif_h/zz"
 )
 
@@ -102,4 +106,17 @@ func ZZ_C18_cancelled() {
 	} else {
 		runRefresh(e, false)
 	}
+}
+
+// ZZ_C18_oidc_code: redemption of the code of an OpenID Connect grant (scope openid, openid.DefaultSession, ID
+// Token minted by the model signer) under a single fault: the OIDC session lookup and deletion are storage calls
+// like any other - whatever kind of failure they answer with, nothing (no access, refresh or ID token) is issued.
+func ZZ_C18_oidc_code() {
+	tx := storeChoice()
+	signer := world.NewModelSigner()
+	e := newEnvX("oidc", tx, nil, []compose.Factory{compose.OpenIDConnectExplicitFactory}, func(cs *compose.CommonStrategy, cfg *fosite.Config) {
+		cs.OpenIDConnectTokenStrategy = &openid.DefaultStrategy{Signer: signer, Config: cfg}
+		cs.Signer = signer
+	})
+	runCode(e, codeOpts{scopes: []string{"openid", "offline", "photos"}, oidc: true})
 }
